@@ -469,6 +469,9 @@ def update_stats(acc, plan, out):
     acc["faults"][plan["fault"]] = acc["faults"].get(plan["fault"], 0) + 1
     for k, v in out["write"]["fired"].items():
         acc["fired"][k] = acc["fired"].get(k, 0) + v
+    for k, v in ((out.get("replay") or {}).get("fired") or {}).items():
+        if k.startswith("profile_file_"):  # (history between run and replay: counted where it happened)
+            acc["fired"][k] = acc["fired"].get(k, 0) + v
     acc["hs_pairs"].add((plan["write"]["hashseed"], plan["replay"]["hashseed"]))
     if len(plan["genes"]) > 1:
         acc["multi"] += 1
